@@ -45,7 +45,7 @@ extern unsigned usercount;
 #endif
 
 enum { OP_HELLO = 1, OP_WAIT, OP_SLEEP, OP_SOCKET, OP_BIND, OP_SEND, OP_RECV, OP_TUN_OPEN,
-       OP_TUN_READ, OP_TUN_WRITE, OP_SYSTEM, OP_CLOSE };
+       OP_TUN_READ, OP_TUN_WRITE, OP_SYSTEM, OP_CLOSE, OP_CONNECT };
 
 ssize_t __real_read(int, void *, size_t);
 ssize_t __real_write(int, const void *, size_t);
@@ -415,6 +415,22 @@ int __wrap_bind(int fd, const struct sockaddr *addr, socklen_t len)
 	return 0;
 }
 
+/* connect() on a UDP socket: fixes the peer (datagrams from anybody else are dropped by the simulated OS) and makes the socket
+   report ICMP errors (a closed port at the peer: ECONNREFUSED from the next call) as Linux does */
+int __real_connect(int fd, const struct sockaddr *addr, socklen_t len);
+int __wrap_connect(int fd, const struct sockaddr *addr, socklen_t len)
+{
+	int rc;
+	if (fd < 0 || fd >= MAXFD || vfd[fd] != V_UDP) return __real_connect(fd, addr, len);
+	q_begin(OP_CONNECT);
+	q_i32(fd);
+	put_addr(addr, len);
+	q_call();
+	rc = r_i32();
+	if (rc < 0) { errno = -rc; return -1; }
+	return 0;
+}
+
 int __wrap_setsockopt(int fd, int level, int name, const void *val, socklen_t len)
 {
 	if (fd >= 0 && fd < MAXFD && vfd[fd] != V_NONE) return 0;
@@ -426,10 +442,9 @@ ssize_t __wrap_sendto(int fd, const void *buf, size_t n, int flags, const struct
 	int rc;
 	if (fd < 0 || fd >= MAXFD || vfd[fd] != V_UDP) { errno = EBADF; return -1; }
 	if (n > 65507) { errno = EMSGSIZE; return -1; }
-	if (!addr || alen == 0) { errno = EDESTADDRREQ; return -1; }
 	q_begin(OP_SEND);
 	q_i32(fd);
-	put_addr(addr, alen);
+	put_addr(addr, addr ? alen : 0);		/* no address: the peer of a connected socket (EDESTADDRREQ otherwise) */
 	q_u32(alen);
 	q_put(buf, n);
 	q_call();
